@@ -24,6 +24,7 @@ def _is_multiple(g, q, t):
 
 
 class TickRounding(Harness):
+    cvc5_recheck = True      # thorough tier: obligations re-discharged with cvc5
     name = "TickRounding"
     title = "real Market._add_order on an arbitrary positive price: rounded onto the grid, never more aggressive"
     what_symbolic = "the submitted price (any positive real up to 1e9); tick size from a stated set; both sides"
@@ -105,6 +106,7 @@ class ScaledMarket(Market):
 
 
 class IndexValues(Harness):
+    cvc5_recheck = True      # thorough tier: obligations re-discharged with cvc5
     name = "IndexValues"
     title = "real IndexMarket index computations over symbolic component prices"
     what_symbolic = "component market prices (set by real trades) and fundamental prices (any positive reals); shares from concrete unequal sets"
